@@ -94,6 +94,7 @@ class Agg:
         self.violating: list[dict] = []
         self.digests: dict[int, str] = {}
         self.extra: dict[str, int] = {}
+        self.sets: dict[str, set] = {}     # named sets, united over cases (distinct counts)
 
     def add(self, res: dict) -> None:
         self.cases += 1
@@ -104,6 +105,8 @@ class Agg:
             self.probes[k] = self.probes.get(k, 0) + v
         for k, v in res.get("extra", {}).items():
             self.extra[k] = self.extra.get(k, 0) + v
+        for name, vals in res.get("sets", {}).items():
+            self.sets.setdefault(name, set()).update(vals)
         for k in res.get("keys", []):
             self.keys.add(k)
         for k in res.get("nontrivial_keys", []):
@@ -265,7 +268,8 @@ def phase_of(phases: list[dict], index: int) -> dict:
 
 def phase_jobs(phases: list[dict], seed: int, pid: str, limit: int | None = None) -> list[dict]:
     """Jobs of all phases, interleaved in proportion, so that a wall budget that stops
-    exploration early still covers every phase."""
+    exploration early still covers every phase; phases marked `first` (small exhaustive
+    parts) are dispatched before everything else and are never cut by the budget."""
     keyed = []
     for k, ph in enumerate(phases):
         n, per, off = ph["n_cases"], ph["cases_per_job"], ph["offset"]
@@ -274,9 +278,9 @@ def phase_jobs(phases: list[dict], seed: int, pid: str, limit: int | None = None
         starts = list(range(0, n, per))
         for j, start in enumerate(starts):
             cases = [[off + i, mix(seed, pid, off + i)] for i in range(start, min(n, start + per))]
-            keyed.append(((j + 0.5) / len(starts), k,
+            keyed.append((-1.0 if ph.get("first") else (j + 0.5) / len(starts), k,
                           {"mode": "cases", "cases": cases, "params": ph["params"],
-                           "phase": ph["name"]}))
+                           "phase": ph["name"], "first": bool(ph.get("first"))}))
     keyed.sort(key=lambda t: (t[0], t[1]))
     return [j for _, _, j in keyed]
 
@@ -301,8 +305,9 @@ def generic_main(prop, tier: str, seed: int) -> int:
         # dispatch in slices so that the wall budget can stop exploration early
         slice_n = plan.get("slice") or max(pool.workers * 2, 1)
         done_jobs = 0
+        n_first = sum(1 for j in jobs if j.get("first"))
         for s in range(0, len(jobs), slice_n):
-            if time.monotonic() - t0 > budget_s and done_jobs > 0:
+            if time.monotonic() - t0 > budget_s and done_jobs > 0 and s >= n_first:
                 break
             for job, res in run_jobs_with_retry(pool, jobs[s:s + slice_n], prop.CASE_CAP * per):
                 done_jobs += 1
@@ -380,6 +385,7 @@ def generic_main(prop, tier: str, seed: int) -> int:
     per_hour = 3600.0 / max(explore_wall, 1e-6)
     cov.update({
         "evaluations": agg.cases,
+        "distinct_counts": {k: len(v) for k, v in sorted(agg.sets.items())},
         "cases_per_phase": {k[len("cases_phase_"):]: v for k, v in sorted(agg.extra.items())
                             if k.startswith("cases_phase_")},
         "runs_per_hour": int(agg.cases * per_hour),
